@@ -342,6 +342,27 @@ theorem message_to_dead_process_is_stored_without_repair (w : Worker V) (t : Nat
     w.handleCommand (.deliver t m) = .ok ({ w with ex := w.ex.notifyMessage t m.val }, []) := by
   simp [Worker.handleCommand, hv, hwf]
 
+/-- Variant `releaseDead`: the release runs with EVERY pass through the finished block — also the instruction-less
+    pass of a process failed from outside (effect error) that is popped with no frames left (`ranFinished`): the
+    non-persistent process at the front of the queue is released. -/
+theorem release_after_finished_pass (w1 : Worker V) (now : Nat) (ex' : Exec V) (pid : Nat) (rest : List Nat)
+    (hv : w1.variant.releaseDead = true) (hq : (w1.ex.checkExpiredTimeouts now).queue = pid :: rest)
+    (hp : pid ∉ w1.persistent) :
+    w1.releaseAfterStep now .ranFinished ex' = ex'.releaseDead pid := by
+  simp [Worker.releaseAfterStep, hv, Slice.endsProcess, hq, hp]
+
+/-- … a persistent process (the REPL process) keeps its mailbox and await state, and without the repair nothing is
+    released at all. -/
+theorem no_release_for_persistent_or_without_repair (w1 : Worker V) (now : Nat) (slice : Slice V) (ex' : Exec V) :
+    (w1.variant.releaseDead = false → w1.releaseAfterStep now slice ex' = ex') ∧
+    (∀ pid rest, (w1.ex.checkExpiredTimeouts now).queue = pid :: rest → pid ∈ w1.persistent →
+      w1.releaseAfterStep now slice ex' = ex') := by
+  refine ⟨fun hv => by simp [Worker.releaseAfterStep, hv], fun pid rest hq hp => ?_⟩
+  unfold Worker.releaseAfterStep
+  split
+  · simp [hq, hp]
+  · rfl
+
 /-- commands are `CmdOK` in the state in which each of them is handled -/
 def CmdsOK : Worker V → List (Cmd V) → Prop
   | _, [] => True
